@@ -39,14 +39,17 @@ Proof. exact parse_wf. Qed.
 
 (* whatever the reference parser (= the first generation) accepts, the second generation accepts
    with the same rest and the same tree up to the known difference that `-5` stays a unary minus
-   (D24) - unless a reference has exactly 127 steps, which it rejects (the listed finding D70) *)
+   (D24); references of up to 127 steps included (D70, repaired) *)
 Theorem C16_delta_expression_is_reference : forall fuel ts e rest,
   RefParser.parse_expr fuel ts = Some (e, rest) ->
-  if DeltaExpr.steps_ok e
-  then exists e', DeltaExpr.parse_expression_res fuel ts = DeltaExpr.Ok (e', rest) /\
-                  DeltaExpr.fold_negative_literals e' = e /\ DeltaExpr.admissible e' = true
-  else DeltaExpr.parse_expression_res fuel ts = DeltaExpr.Err DeltaExpr.DepthExceeded.
+  exists e', DeltaExpr.parse_expression_res fuel ts = DeltaExpr.Ok (e', rest) /\
+             DeltaExpr.fold_negative_literals e' = e /\ DeltaExpr.admissible e' = true.
 Proof. exact DeltaExprProofs.delta_expr_is_reference_exact. Qed.
+
+Theorem C16_acceptance_iff : forall ts rest,
+  (exists fuel e, RefParser.parse_expr fuel ts = Some (e, rest)) <->
+  (exists fuel e', DeltaExpr.parse_expression_res fuel ts = DeltaExpr.Ok (e', rest) /\ DeltaExpr.admissible e' = true).
+Proof. exact DeltaExprProofs.acceptance_iff. Qed.
 
 (* and conversely: a tree it builds is the reference tree, or the reference parser rejects the
    tokens at every fuel (three missing checks of the second generation: a bitwise or shift
@@ -59,18 +62,19 @@ Proof. exact DeltaExprProofs.delta_accepts_reference_iff_admissible. Qed.
 
 Theorem C16_delta_comparison_is_reference : forall f ts op l r rest,
   RefParser.parse_comparison f ts = Some ((op, l, r), rest) ->
-  DeltaExpr.steps_ok l = true -> DeltaExpr.steps_ok r = true ->
   exists l' r', DeltaExpr.parse_comparison f ts = DeltaExpr.Ok ((op, l', r'), rest) /\
                 DeltaExpr.fold_negative_literals l' = l /\ DeltaExpr.fold_negative_literals r' = r /\
                 DeltaExpr.admissible l' = true /\ DeltaExpr.admissible r' = true.
 Proof. exact DeltaExprProofs.delta_comparison_is_reference. Qed.
 
-(* the witness for D70, and the three seeded changes of the expression parser *)
-Theorem C16_delta_rejects_127_steps_refuted :
+(* the parser before the repair of D70 (its reference-step loop ran 127 times and then gave up
+   without looking whether a step follows), and the three seeded changes of the expression parser *)
+Theorem C16_pinned_rejects_127_steps_refuted :
   exists ts e, RefParser.parse_expr 400 ts = Some (e, []) /\
-               DeltaExpr.parse_expression_res 400 ts = DeltaExpr.Err DeltaExpr.DepthExceeded /\
-               forall fuel, DeltaExpr.parse_expression fuel ts = None.
-Proof. exact DeltaExprProofs.delta_expr_is_reference_refuted. Qed.
+               DeltaExpr.parse_expression_pinned_res 400 ts = DeltaExpr.Err DeltaExpr.DepthExceeded /\
+               (forall fuel, DeltaExpr.parse_expression_pinned fuel ts = None) /\
+               DeltaExpr.parse_expression 400 ts = Some (e, []).
+Proof. exact DeltaExprProofs.pinned_rejects_127_steps_refuted. Qed.
 
 Theorem C16_right_associative_multiplication_refuted :
   exists ts e_ref e_mut,
@@ -101,7 +105,8 @@ Print Assumptions C16_parse_wf.
 Print Assumptions C16_delta_expression_is_reference.
 Print Assumptions C16_delta_accepts_iff.
 Print Assumptions C16_delta_comparison_is_reference.
-Print Assumptions C16_delta_rejects_127_steps_refuted.
+Print Assumptions C16_pinned_rejects_127_steps_refuted.
+Print Assumptions C16_acceptance_iff.
 Print Assumptions C16_right_associative_multiplication_refuted.
 Print Assumptions C16_single_cast_refuted.
 Print Assumptions C16_address_depth_from_zero_refuted.
